@@ -80,4 +80,5 @@ package main
 //@   name regexp.Compile/filterList
 //@   in ~/cmd/regsync
 //@   infunc regsync\.filterList$
-//@   requires anchored-as-a-group: expr == "^(?:" + caller.filter + ")$"
+//   (filter / filter__2: the range variables of the allow loop and of the deny loop)
+//@   requires anchored-as-a-group: expr == "^(?:" + caller.filter + ")$" || expr == "^(?:" + caller.filter__2 + ")$"
